@@ -18,7 +18,7 @@ import time
 
 from vf.core import Check, REPO, HarnessError, lean_str, lean_bool
 
-MODULES = ["Model.Lex", "Proofs.Lex", "Proofs.LexRun", "Proofs.LexSkew", "Generated.C13", "Properties.C13"]
+MODULES = ["Model.Lex", "Proofs.Lex", "Proofs.LexRun", "Proofs.LexSkew", "Proofs.LexSpans", "Generated.C13", "Properties.C13"]
 P = "SqlglotModel.Properties.C13."
 THEOREMS = [P + n for n in [
     # cursor arithmetic
@@ -45,6 +45,7 @@ THEOREMS = [P + n for n in [
     "lex_line_col_exact",
     "base_cfg_clean",
     "gaps_are_space_or_comment",
+    "comment_spans_start_with_delimiter",
     "lex_consumes_input",
     "lex_progress",
     "ascii_wf",
